@@ -241,7 +241,16 @@ TYPE_CLASSES = [
 TRUE_SPELLINGS = ["yes", "Yes", "YES", "true", "True", "TRUE", "true()"]
 FALSE_SPELLINGS = ["no", "No", "NO", "false", "False", "FALSE", "false()"]
 # columns holding truth values (canonical header class members are resolved via first_token_class)
-TRUTH_SURVEY = {"required", "bind::required", "read_only", "readonly", "bind::readonly", "disabled"}
+TRUTH_SURVEY = {"required", "bind::required", "read_only", "readonly", "bind::readonly", "disabled",
+                "relevant", "constraint", "calculation"}
+# pinned: the bind attributes whose yes/no style values are written as true()/false(), with their column spellings
+CONVERTIBLE_COLUMNS = {
+    "readonly": ["read_only", "readonly", "bind::readonly"],
+    "required": ["required", "bind::required"],
+    "relevant": ["relevant", "relevance", "bind::relevant"],
+    "constraint": ["constraint", "bind::constraint"],
+    "calculate": ["calculation", "calculate", "bind::calculate"],
+}
 TRUTH_SETTINGS = {"omit_instanceID", "allow_choice_duplicates", "clean_text_values"}
 SMART = {"'": ["‘", "’"], '"': ["“", "”"]}
 UNRELATED_SHEETS = ["notes", "_draft", "lookup data", "Changelog", "_survey", "_choices", "translations todo", "README"]
